@@ -1335,13 +1335,14 @@ impl World for LongWorld {
         LONG_KINDS
     }
     fn serves(&self) -> &'static [&'static str] {
-        &["C09", "C10"]
+        &["C09", "C10", "C01", "C02", "C06"]
     }
     fn runs(&self, ask: Ask) -> u64 {
-        if ask.thorough {
-            384
-        } else {
-            96
+        match (ask.prop, ask.thorough) {
+            ("C06", false) => 24,
+            ("C06", true) => 96,
+            (_, false) => 96,
+            (_, true) => 384,
         }
     }
     fn components(&self) -> (Vec<&'static str>, Vec<&'static str>) {
@@ -1373,7 +1374,7 @@ impl World for LongWorld {
         // Anchored input read into a separate arena (a reader that owns its buffers).
         knobs.insert("separate_arena".into(), (index / 4 / 2) % 2);
         knobs.insert("recycled_iovec".into(), (index % 5 == 1) as u64);
-        if index % 4 == 3 {
+        if index % 4 == 3 || ask.prop == "C06" {
             // A long log read back through StreamReader.
             knobs.insert("reader_log".into(), 1);
             knobs.insert("keep_total_mib".into(), if ask.thorough { *rng.pick(&[32u64, 64, 128]) } else { 16 });
@@ -1403,6 +1404,13 @@ impl World for LongWorld {
             .into_iter()
             .map(|v| Violation { prop: v.prop, inv: v.inv.to_string(), detail: v.detail, at_op: v.at, key: String::new() })
             .collect();
+        // A long stream is one long message: what breaks it breaks the round trip.
+        let mirrored: Vec<Violation> = violations
+            .iter()
+            .filter(|v| v.inv == "C09.stream_mismatch" || v.inv == "C09.stream_rejected")
+            .map(|v| Violation { prop: "C01", inv: "C01.stream_roundtrip".into(), detail: v.detail.clone(), at_op: v.at_op, key: String::new() })
+            .collect();
+        violations.extend(mirrored.into_iter().take(1));
         if let Err(e) = result {
             let msg = panic_message(&e);
             if msg.starts_with("harness:") {
@@ -1410,7 +1418,7 @@ impl World for LongWorld {
                 std::process::exit(2);
             }
             let loc = crate::driver::last_panic_location(&msg);
-            for p in ["C09", "C10"] {
+            for p in ["C09", "C10", "C01"] {
                 violations.push(Violation { prop: p, inv: format!("{}.panic_while_streaming", p), detail: format!("panic after {} calls: {}", calls, loc), at_op: usize::MAX, key: String::new() });
             }
         } else {
